@@ -153,6 +153,8 @@ def pol_first(ctx):
     if m is None or kind is None:
         return A.sample_random(spec, ctx["rng"])
     dt = A.np_dtype(spec)
+    if kind in ("flat", "joint") and not m.any():
+        ctx["legal_only"] = False  # nothing is masked-in: whatever is played is not mask-respecting
     if kind == "flat":
         idx = np.flatnonzero(m)
         return np.asarray(idx[0] if len(idx) else 0, dt)
@@ -170,6 +172,8 @@ def pol_last(ctx):
     if m is None or kind is None:
         return A.sample_random(spec, ctx["rng"])
     dt = A.np_dtype(spec)
+    if kind in ("flat", "joint") and not m.any():
+        ctx["legal_only"] = False
     if kind == "flat":
         idx = np.flatnonzero(m)
         return np.asarray(idx[-1] if len(idx) else 0, dt)
